@@ -112,7 +112,15 @@ def run(ctx: Context, col) -> None:
                     f"== {doc}" if ok else f"measure is {brief(got, 200)}, documented {doc}", text=f"{meth} definition")
     # R1.3
     for cname in ("ValueIteration", "SemiAsyncValueIteration", "RelativeValueIteration", "PeriodicValueIteration"):
-        cls = ctx.ct.get(cname)
+        policy_after_loop(ctx, ctx.ct.get(cname), col, "R1.3")
+    col.floor("R1.1", 6)
+    col.floor("R1.2", 6)
+    col.floor("R1.3", 8)
+
+
+def policy_after_loop(ctx, cls, col, rule):
+    cname = cls.name
+    if True:
         loop = ctx.solve_loop(cls)
         bad = None
         npaths = 0
@@ -133,18 +141,15 @@ def run(ctx: Context, col) -> None:
             if late:
                 bad = (p, f"line {late[0].lineno} writes {sorted(loop.node_writes(late[0]) & {'values', 'gamma', 'policy'})} after the policy was extracted")
                 break
-        col.add("R1.3", f"{cname}.solve", loop.file, loop.header.lineno, bad is None and npaths > 0,
+        col.add(rule, f"{cname}.solve", loop.file, loop.header.lineno, bad is None and npaths > 0,
                 f"policy extracted from the final values on all {npaths} paths to the return" if bad is None else f"path {fmt_path(bad[0])}: {bad[1]}",
                 text="policy from final values")
         I, t = run_method(ctx, cls, "_extract_policy")
         o, f = ctx.ct.require(cls, "_extract_policy")
         okp = same(t, policy_oracle(I))
-        col.add("R1.3", f"{cname}._extract_policy", o.module.relpath, f.lineno, okp,
+        col.add(rule, f"{cname}._extract_policy", o.module.relpath, f.lineno, okp,
                 "greedy w.r.t. self.values, self.gamma with the sweep's Q-term" if okp else f"extraction term {brief(t, 240)}",
                 text="extraction is greedy")
-    col.floor("R1.1", 6)
-    col.floor("R1.2", 6)
-    col.floor("R1.3", 8)
 
 
 def _diff_interval(doc, thr, dom):
